@@ -255,6 +255,81 @@ def build_generic_assign(name, op, br):
     return kani_runner.Program(name, src, "generic-assign-base|%s|%d" % (tr, br), desc, True)
 
 
+SPECIAL = {
+    # a reference with a named lifetime is an ordinary operand type, not the `&T` base form: the derived forms are `&A + &'a B`, `A + &&'a B`, `&A + &&'a B`
+    "named-lifetime-rhs": ("Add", """
+#[derive(Clone)]
+pub struct A1(pub u8);
+pub struct B1(pub u8);
+pub struct J<'a>(pub u8, pub &'a B1);
+#[derive_ex(Add)]
+impl<'a> core::ops::Add<&'a B1> for A1 {
+    type Output = J<'a>;
+    fn add(self, rhs: &'a B1) -> J<'a> { J(wop(1, self.0, rhs.0), rhs) }
+}
+pub fn check<S: Src>(s: &mut S) {
+    let (a, b) = (s.u8(), s.u8());
+    let bb = B1(b);
+    let x = A1(a);
+    let r = &x + &bb;
+    assert!(r.0 == wop(1, a, b) && core::ptr::eq(r.1, &bb), "ref-lhs");
+    let rb = &bb;
+    let r2 = &x + &rb;
+    assert!(r2.0 == wop(1, a, b) && core::ptr::eq(r2.1, &bb), "ref-ref");
+    let r3 = x + &rb;
+    assert!(r3.0 == wop(1, a, b) && core::ptr::eq(r3.1, &bb) && bb.0 == b, "val-ref");
+}
+"""),
+    # `Self` nested in the generic arguments of Output and of a where-clause predicate: in the forms for `&G` it still means `G`
+    "self-nested-in-output": ("Add", """
+#[derive(Clone, PartialEq, Debug)]
+pub struct G(pub u8);
+#[derive_ex(Add)]
+impl core::ops::Add for G where Option<Self>: Clone, (Self, u8): Sized {
+    type Output = Result<Self, Option<Self>>;
+    fn add(self, rhs: Self) -> Result<Self, Option<Self>> { if self.0 & 1 == 0 { Ok(G(wop(1, self.0, rhs.0))) } else { Err(Some(rhs)) } }
+}
+pub fn check<S: Src>(s: &mut S) {
+    let (a, b) = (s.u8(), s.u8());
+    let want = G(a) + G(b);
+    let (x, y) = (G(a), G(b));
+    assert!(&x + &y == want, "ref-ref");
+    assert!(&x + G(b) == want, "ref-val");
+    assert!(G(a) + &y == want, "val-ref");
+    assert!(x.0 == a && y.0 == b, "operands-unchanged");
+}
+"""),
+    "self-nested-in-output-of-ref-base": ("Sub", """
+#[derive(Clone, PartialEq, Debug)]
+pub struct G(pub u8);
+#[derive_ex(Sub, SubAssign)]
+impl core::ops::Sub<&G> for &G where Option<G>: Clone {
+    type Output = G;
+    fn sub(self, rhs: &G) -> G { G(wop(2, self.0, rhs.0)) }
+}
+pub fn check<S: Src>(s: &mut S) {
+    let (a, b) = (s.u8(), s.u8());
+    let (x, y) = (G(a), G(b));
+    let want = &x - &y;
+    assert!(G(a) - G(b) == want && G(a) - &y == want && &x - G(b) == want, "forms");
+    let mut z = G(a);
+    z -= &y;
+    assert!(z == want, "assign-ref");
+    let mut z = G(a);
+    z -= G(b);
+    assert!(z == want && y.0 == b, "assign-val");
+}
+"""),
+}
+
+
+def build_special(name, key):
+    tr, body = SPECIAL[key]
+    desc = "special base impl: %s" % key
+    src = e1.HEADER.format(pid=PID, name=name, desc=desc) + body + "\n" + e1.harness()
+    return kani_runner.Program(name, src, "special|%s" % key, desc, nontrivial=True)
+
+
 def run(tier):
     t0 = time.time()
     rnd = random.Random(common.seed())
@@ -297,6 +372,8 @@ def run(tier):
         for bl, br in ((False, False), (True, True), (False, True), (True, False)):
             for req in (["{}"], ["{}", "{}Assign"], ["{}Assign"]):
                 progs.append(build_generic("p%05d" % len(progs), op, bl, br, [r.format(op[0]) for r in req], True))
+    for key in SPECIAL:
+        progs.append(build_special("p%05d" % len(progs), key))
     out = common.Outcome(PID)
     extra = e3_extras.summary(e3_extras.safe(e3_extras.c09_kernels, out))
     return e1.finish(
@@ -305,5 +382,5 @@ def run(tier):
              "value, number/kind of clones and the single call of the user's impl are asserted; distinct by op|base|rhs|requested",
         bounds="10 operators x 4 base forms x Rhs in {Self, B} x {Op},{OpAssign},{Op,OpAssign}, base impl OpAssign<Rhs|&Rhs> with {Op}; generic G<T> with `Self` in Output "
                "and where-clause and Rhs defaulting to Self; user body non-commutative and call-recording; Clone of operand types records",
-        outside="base impls for `&'a T` with an explicit lifetime or `&mut T`; `Self` in the where-clause of a base impl on `&T` (an anonymous lifetime cannot be carried over); Output types other than the Self type for the OpAssign forms; order of the two clones (not stated)",
+        outside="base impls on `&mut T`; `Self` in the where-clause of a base impl on `&T` (an anonymous lifetime cannot be carried over); Output types other than the Self type for the OpAssign forms; order of the two clones (not stated)",
         functions=["every impl generated by derive_ex on an `impl Op<..> for ..` item (item_impl path)"])
